@@ -1,5 +1,6 @@
 SPECIFICATION Spec
 CONSTANTS
+  Rivals = {""}
   Chunks = {0, 1, 3}
   Pres = {"none", "intact_old", "corrupt_old", "dir", "nodir"}
   Modes = {"none", "kill", "killack", "cancel", "werr"}
